@@ -123,7 +123,7 @@ def incremental_driver(cfg, T):
         storage = build_storage(cfg['storage'], log, None, spy=True)
         cls = IncrementalPFI if cfg['expl'] == 'pfi' else IncrementalSage
         # exactly one environment scenario per execution (they are not crossed with each other)
-        scenarios = ['plain', 'extra-key', 'warm-start', 'model-fault'] + (['earlier-explainer'] if cfg['storage'] == 'libdefault' else [])
+        scenarios = ['plain', 'extra-key', 'warm-start', 'model-fault', 'numpy-ints'] + (['earlier-explainer'] if cfg['storage'] == 'libdefault' else [])
         scenario = scenarios[run.choose(len(scenarios), 'scenario', None, 0)]
         if scenario == 'earlier-explainer':
             # another explainer built with the default storage has already processed a stream in this process
@@ -132,8 +132,11 @@ def incremental_driver(cfg, T):
                 for i in range(3):
                     other.explain_one({n: F(7000 + 10 * i + j) for j, n in enumerate(names)}, F(i))
         kw = {}
+        # 'numpy-ints': the counts come from NumPy (np.arange, rng.integers, a typed parameter grid) - integers all the same
+        import numpy as _np
+        ctor_int = _np.int64 if scenario == 'numpy-ints' else int
         if cfg['form'] != 'required-only':
-            kw['n_inner_samples'] = cfg['n']
+            kw['n_inner_samples'] = ctor_int(cfg['n'])
             if storage is not None:
                 kw['storage'] = storage
         try:
@@ -163,7 +166,7 @@ def incremental_driver(cfg, T):
                 o = run.choose(3, 'n-override', None, 0)
                 if o:
                     n_eff = (3, 1)[o - 1] if n_ctor != (3, 1)[o - 1] else 2
-                    opts['n_inner_samples'] = n_eff
+                    opts['n_inner_samples'] = n_eff if scenario != 'numpy-ints' else (_np.uint8, _np.int64)[o - 1](n_eff)
                 if run.choose(2, 'update-storage-flag', None, 0):
                     opts['update_storage'] = False
             x_in = dict(x)
